@@ -46,6 +46,7 @@ class Sim:
     heap = None
     tensora = None
     sched = None  # engine T installs the active scheduler here; SimLock consults it
+    phase_cb = None  # the worker installs its journal's phase writer here
 
 
 SIM = Sim()
